@@ -776,6 +776,44 @@ def k4(ck: Check) -> None:
     src = it.args[0] if isinstance(it, ast.Call) and callee_name(it) == "enumerate" else it
     okr = isinstance(src, ast.Name) and src.id in f.params()
     ck.ob("K4", fm, loop, okr, "every candidate is examined" if okr else f"avoid branch iterates `{text(it)}`", key="avoid: range")
+    # ---- both branches: a walk advances one variable at a time (asynchronous semantics)
+    UF = None
+    for n in own_walk(f.node):
+        if isinstance(n, ast.Assign) and isinstance(n.targets[0], ast.Name):
+            v_ = n.value
+            vals = [v_.value] if isinstance(v_, ast.DictComp) else []
+            if vals and isinstance(vals[0], ast.Call) and callee_name(vals[0]) == "mk_update_function":
+                UF = n.targets[0].id
+    if UF is None:
+        for n in own_walk(f.node):   # filled by a loop
+            if isinstance(n, ast.Assign) and isinstance(n.targets[0], ast.Subscript) and isinstance(n.targets[0].value, ast.Name) \
+                    and isinstance(n.value, ast.Call) and callee_name(n.value) == "mk_update_function":
+                UF = n.targets[0].value.id
+    if UF is None:
+        raise AnalysisError("anchor vanished: table of update functions in run_simulation_minification")
+    walks = {text(c_.args[0]) for c_ in own_walk(f.node) if isinstance(c_, ast.Call) and isinstance(c_.func, ast.Subscript)
+             and text(c_.func.value) == UF and len(c_.args) == 1}
+    n_steps = 0
+    for n in own_walk(f.node):
+        if not (isinstance(n, ast.Assign) and isinstance(n.targets[0], ast.Subscript) and text(n.targets[0].value) in walks):
+            continue
+        SIMv, var = text(n.targets[0].value), text(n.targets[0].slice)
+        cn_ = fm.cfgn(n)
+        val, at_ = fm.deref_at(n.value, cn_)
+        okv = isinstance(val, ast.Call) and isinstance(val.func, ast.Subscript) and text(val.func.value) == UF \
+            and text(val.func.slice) == var and [text(a_) for a_ in val.args] == [SIMv]
+        lp_eval = fm.cfg.enclosing_loops(at_)[:1]
+        lp_store = fm.cfg.enclosing_loops(cn_)[:1]
+        same_iter = (lp_eval == lp_store) or not lp_store
+        n_steps += 1
+        ck.ob("K4", fm, n, okv and same_iter,
+              "one variable is updated with its own update function evaluated on the current state of the walk" if okv and same_iter else
+              f"`{text(n)[:60]}`: the written value is not `{UF}[{var}]({SIMv})` evaluated on the walk's current state right "
+              f"before the write; values computed ahead of the writes make the sweep a synchronous step, and a synchronous "
+              f"successor need not be reachable asynchronously: the walk can leave its attractor, whose candidate is then lost",
+              key=f"asynchronous step {n_steps}")
+    if n_steps < 2:
+        raise AnalysisError("anchor vanished: state updates of the simulation walks")
     # ---- no-avoid branch
     cb2 = None
     for s in noavoid_body:
